@@ -12,11 +12,15 @@ import hashlib
 import math
 import numbers
 import operator as _op
+import sys
 import time
 from fractions import Fraction
 
 import numpy as np
 import z3
+
+if hasattr(sys, "set_int_max_str_digits"):
+    sys.set_int_max_str_digits(0)  # models of non-linear queries may hold rationals with thousands of digits (z3 converts them through strings)
 
 _CTX = None  # the active Explorer while a symbolic path runs
 
